@@ -498,13 +498,13 @@ pub fn c01_history_matrix_n4_k4() {
 // @verif prop=C01 tier=quick fl=f1 feat=map4 role=history/adjacency-map t=1500 mem=20
 #[cfg_attr(kani, kani::proof)]
 #[cfg_attr(kani, kani::unwind(8))]
-pub fn c01_history_adjacency_map_n2_x4_k1() {
-    history_map::<2, 4, 1>();
+pub fn c01_history_adjacency_map_n2_x3_k1() {
+    history_map::<2, 3, 1>();
 }
 
 // @verif prop=C01 tier=quick fl=f1 feat=map4 role=history/weighted t=1500 mem=20
 #[cfg_attr(kani, kani::proof)]
 #[cfg_attr(kani, kani::unwind(8))]
-pub fn c01_history_weighted_n3_k1() {
-    history_weighted::<3, 1>();
+pub fn c01_history_weighted_n2_k2() {
+    history_weighted::<2, 2>();
 }
